@@ -124,8 +124,11 @@ class CParser:
         self._scope_stack.append(dict())
 
     def _pop_scope(self) -> None:
-        assert len(self._scope_stack) > 1
-        self._scope_stack.pop()
+        # The lexer pops a scope as soon as it sees a '}'. An unmatched '}' at
+        # file scope must not underflow the stack; the parser reports it with
+        # a proper location once it reaches that token.
+        if len(self._scope_stack) > 1:
+            self._scope_stack.pop()
 
     def _add_typedef_name(self, name: str, coord: Optional[Coord]) -> None:
         """Add a new typedef name (ie a TYPEID) to the current scope"""
